@@ -32,6 +32,16 @@ NOTES = {
     'C17-6': 'first missed: no page was nested deeper than the default recursion limit; 1200-level pages first and last in the workload',
     'C19-5': 'first missed: parameters were only ever sent in the query string; form-encoded request bodies added',
     'C19-6': 'first missed: no error response of an application that is shutting down was inspected; added',
+    # round 5
+    'C02-8': 'first missed: no page had more than 10 000 tokens; pages with a run of identical blocks (k vs k-1 copies) beyond that size added to the big-page pass, which C02 now runs too',
+    'C03-8': 'first missed: identity and counts were only exercised under the default url_rules; every rule value (None, empty, each rule, combinations) and images without source attributes added',
+    'C04-8': 'first missed: no page had more than a few links; pages of 150 to 450 links with repeated targets and texts added (observer only: beyond 200 links the matcher junk heuristic is outside the model)',
+    'C06-8': 'first missed: Latin-1 was only ever declared by its canonical label; its aliases (latin1, ISO_8859-1, l1, cp819, ...) with bytes 0x80-0x9f added',
+    'C08-8': 'first missed: no URL had a malformed authority (unbalanced bracket, host failing NFKC/IDNA checks); added on both sides of the scheme gate',
+    'C15-8': 'first missed: no media element with block-level fallback content (video, audio, object); added to the generator',
+    'C17-7': 'first missed: no image carried several source URLs in another order between the versions; responsive-image galleries added to the workload',
+    'C17-8': 'first missed: no page beyond the spacer cap was diffed twice in one process; a 900-card page chain added to the workload',
+    'C19-7': 'first missed: no two parameter values differed only in Unicode normalisation form; NFC/NFD/compatibility variants added',
     'C20-5': 'first missed: shutdown never began while a request was still fetching its pages; two scenarios added to the real-process probe',
 }
 
@@ -63,8 +73,8 @@ def main():
     i = s.index('## 11. Seeded changes')
     head = '''## 11. Seeded changes and reverse fixes: which check catches what
 
-%d breaking changes were made by fresh sub-agents in four rounds (2 per property per round from
-round 2 on; round 4 asked for changes that need something specific to manifest: an interleaving, a
+%d breaking changes were made by fresh sub-agents in five rounds (2 per property per round from
+round 2 on; rounds 4 and 5 asked for changes that need something specific to manifest: an interleaving, a
 multi-request history, an unusual input, two cooperating edits), each agent given only the text of
 one property and a scratch worktree under `/tmp`; each change was confirmed by me
 (`harness/confirm_seed.sh`: the agent's demonstration passes on the unchanged tree and
